@@ -278,6 +278,23 @@ class HistoryRun:
         self.log.append({"op": "exec", "state_times_2^j": [str(a) for a in ints], "j": j, "nshots": nshots})
         return len(self.results) - 1
 
+    def adopt(self, r, ints, j, nshots):
+        """register a result object that was produced elsewhere (parallel helpers) by executing
+        self.circuit on the state ints/2^j"""
+        st = np.asarray(r.state())
+        got = exact_ints(np.concatenate([st.real, st.imag]), 2 ** j)
+        dim = 2 ** self.n
+        fin = [complex(got[i], got[dim + i]) for i in range(dim)]
+        if fin != [complex(a) for a in ints]:
+            self.problems.append(("state", "result.state() differs from the executed state"))
+        w = [int(abs(a) ** 2) for a in fin]
+        self.results.append(r)
+        self.scales.append(4 ** j)
+        self.ops_coq.append(f"Exec {z_list(w)} {nshots}%nat")
+        self.outs_coq.append("ODone")
+        self.log.append({"op": "exec", "state_times_2^j": [str(a) for a in ints], "j": j, "nshots": nshots})
+        return len(self.results) - 1
+
     def accessor(self, kind, r, binary=True, registers=False, qubits=None):
         res = self.results[r]
         meas = self.circuit.measurements
@@ -376,9 +393,15 @@ def random_accessor(rng, hr, r, n):
 
 
 def eval_cases(run, name, exprs, chunk=60):
+    """evaluate the Coq terms by vm_compute, `chunk` per generated file, files compiled in parallel"""
+    from concurrent.futures import ThreadPoolExecutor
+    jobs = [(f"{name}_{i // chunk}.v", exprs[i:i + chunk]) for i in range(0, len(exprs), chunk)]
+    if not jobs:
+        return []
+    with ThreadPoolExecutor(max_workers=8) as ex:
+        outs = list(ex.map(lambda jb: run.coq_eval(jb[0], HEADER, jb[1], timeout=900), jobs))
     vals = []
-    for i in range(0, len(exprs), chunk):
-        v = run.coq_eval(f"{name}_{i // chunk}.v", HEADER, exprs[i:i + chunk], timeout=900)
+    for v in outs:
         if v is None:
             return None
         vals += v
@@ -709,7 +732,8 @@ def part_collapse(run, rng, be, count):
                 x = int("".join(str(int(b)) for b in c["final_samples"]), 2)
                 good &= abs(c["final"][x]) > 0
         if not spec_ok:
-            ok_all = False
+            if "collapse_recorded_order" not in run.refuted:
+                run.refuted.append("collapse_recorded_order")
             run.find(f"collapse_order:{srt}:M({tqs})",
                      "the state after M(..., collapse=True) is not the projection onto the recorded outcome read in the order of the gate's qubits", info)
         if not good:
@@ -815,7 +839,10 @@ def part_symbols(run, rng, be, count):
             ok_all = False
             run.find(f"collapse_order:{srt}:symbols:M({tqs})",
                      "a gate conditioned on result.symbols[i] receives the outcome of another qubit than target_qubits[i]", info)
-    run.oblige("test:symbols_follow_gate_order", ok_all, "test")
+    if ok_all:
+        run.oblige("test:symbols_follow_gate_order", True, "test")
+    elif "symbols_follow_gate_order" not in run.refuted:
+        run.refuted.append("symbols_follow_gate_order")
 
 
 # ------------------------------------------------------------------ main
